@@ -108,6 +108,11 @@ def run_case(case, ctx):
         # undefined (NaN), not zero
         spec.templates[int(rng.integers(0, spec.n_templates)), 0, :] = np.nan
         spec.notes['nan_first_sample'] = True
+    if case['seed'][-1] % 11 == 3:
+        # the spikes of the LOWEST template id carry amplitudes twelve orders of magnitude larger than all others (another unit,
+        # an artefact): the means of the other ids are unaffected
+        spec.amplitudes = spec.amplitudes.astype(np.float64)
+        spec.amplitudes[spec.spike_templates == spec.spike_templates.min()] *= 1e12
     if case['seed'][-1] % 5 == 3:
         # every spike of one template has a stored amplitude of exactly 0: its mean is 0 (it has spikes), not NaN
         spec.amplitudes[spec.spike_templates == spec.spike_templates[0]] = 0
